@@ -299,6 +299,10 @@ pub fn jobs_for(prop: &str, thorough: bool) -> Vec<Job> {
             g.merges = true;
             g.policy = 255;
             js.push(job("GL", "GList insert/insert_after/insert_before with remote ops in between", g, None, 5000));
+            let mut g2 = g;
+            g2.equal_vals = true;
+            g2.merges = false;
+            js.push(job("GL", "same, inserting values that are already present (equal markers next to each other)", g2, None, 4000));
         }
         "C15" => {
             let mut c = Cfg::base(3, 14, Delivery::Any, mon::SPEC | mon::CONV | mon::EQ);
